@@ -76,7 +76,7 @@ func c05Poison(g *Gen) {
 	later := mk([3]int{1, 0, 2}, [3]int{2, 1, 1}, [3]int{3, 2, 2}, [3]int{4, 3, 3}, [3]int{5, 4, 4})
 	dangling := mk([3]int{1, 0, 0}, [3]int{2, 1, 7}, [3]int{3, 2, 2})
 	wide := c05Wide(13, 1)
-	for _, c := range []struct {
+	calls := []struct {
 		a pass.Allocator
 		p *ir.Program
 	}{
@@ -85,8 +85,11 @@ func c05Poison(g *Gen) {
 		{pass.Allocator{Input: "x", Output: "z", Format: "t%d"}, &ir.Program{}},
 		{pass.Allocator{Input: "in", Output: "t3", Format: "t%d"}, wide},
 		{pass.Allocator{Input: "t2", Output: "out", Format: "t%d"}, wide.Clone()},
-	} {
-		c := c
+	}
+	// rotated, so that each kind of call is, in turn, the one directly before the next judged case
+	start := (g.N / 701) % len(calls)
+	for k := range calls {
+		c := calls[(start+1+k)%len(calls)]
 		safe(func() { _ = c.a.Execute(c.p) })
 	}
 	g.Count("poison-calls")
